@@ -2889,6 +2889,7 @@ PIP_Solution_Node::solve(const PIP_Problem& pip,
       // Search for the best pivot row.
       dimension_type pi = not_a_dim;
       dimension_type pj = not_a_dim;
+      bool reclassified = false;
       for (dimension_type i = first_negative; i < num_rows; ++i) {
         if (sign[i] != NEGATIVE) {
           continue;
@@ -2896,7 +2897,18 @@ PIP_Solution_Node::solve(const PIP_Problem& pip,
         dimension_type j;
         if (!find_lexico_minimal_column(tableau.s, mapping, basis,
                                         tableau.s[i], 0, j)) {
-          // No positive s_ij was found: problem is unfeasible.
+          // No positive s_ij was found.
+          // NOTE: a row may be flagged NEGATIVE although it is only known
+          // to be non-positive (see above: "can be considered negative").
+          // If it can vanish in the context, the problem is not unfeasible
+          // there: handle the row as a mixed one.
+          if (row_sign(tableau.t[i], big_dimension) != NEGATIVE
+              && compatibility_check(ctx, tableau.t[i])) {
+            sign[i] = MIXED;
+            reclassified = true;
+            break;
+          }
+          // The row is strictly negative: problem is unfeasible.
 #ifdef NOISY_PIP_TREE_STRUCTURE
           indent_and_print(std::cerr, indent_level,
                            "No positive pivot: Solution = _|_\n");
@@ -2915,6 +2927,11 @@ PIP_Solution_Node::solve(const PIP_Problem& pip,
             break;
           }
         }
+      }
+
+      if (reclassified) {
+        // Jump to next iteration.
+        continue;
       }
 
 #ifdef VERY_NOISY_PIP
